@@ -281,6 +281,12 @@ def gen_first(rng, uni: qgen.Universe, ev: str, uses, nvar):
         return src + f".First().{m}()", ["first", name.lower(), ct, bank, arrow, preds, ["meth", m], "@THROW@"]
     nvar[0] += 1
     v = f"y{nvar[0]}"
+    if rng.random() < 0.45:
+        # a body with conditional expressions: their variables are assigned for every passing element, the value is captured once
+        b, sb = gen_body(rng, v, rng.choice([0, 1, 2]), funs=True)
+        if sb[0] in ("if", "bbin"):
+            return src + f".Select(lambda {v}: {b}).First()", ["firstb", name.lower(), ct, bank, arrow, preds, sb, "@THROW@"]
+        return src + f".Select(lambda {v}: {b}).First()", ["first", name.lower(), ct, bank, arrow, preds, sb, "@THROW@"]
     b, sb = gen_pa(rng, v, rng.choice([0, 1, 2]), funs=True)
     return src + f".Select(lambda {v}: {b}).First()", ["first", name.lower(), ct, bank, arrow, preds, sb, "@THROW@"]
 
